@@ -499,3 +499,62 @@ def noise_pinned_pairs(tier, seed):
                                         replay=dict(clean=clean, noisy=noisy, options=kw, form=mode), confirmed=True))
     res.samples = [dict(pair=k, noisy=v[1][:200]) for k, v in list(NOISE_PAIRS.items())[:2]]
     return res
+
+
+@component(("C01", "C02", "C06", "C09", "C10", "C11", "C13", "C15", "C19", "C20"), "numbers.printing", "bounded")
+def numbers_printing(tier, seed):
+    """svg_meta.ntos is the one function every serialised number goes through (path data, transforms, gradient coordinates, shape
+    fields): whatever a rewrite computes, the document only keeps what ntos writes."""
+    import math
+    import struct
+
+    from picosvg.svg_meta import ntos
+
+    res = ComponentResult()
+    n = 30000 if tier == "quick" else 600000
+    res.bound = f"{n} finite doubles: random bit patterns, magnitudes 1e-25 .. 1e25 with 1-17 significant digits, values rounded to 0-9 decimals, integers, negative zero, subnormals"
+    res.rule = "float(ntos(v)) == v exactly; a value rounded to k decimals is written positionally with at most k decimals or in exponent form; distinct = distinct values"
+    rnd = random.Random(seed)
+    seen = set()
+
+    def check(v, k=None):
+        res.evaluations += 1
+        seen.add(v)
+        try:
+            t = ntos(v)
+            back = float(t)
+        except Exception as e:  # noqa
+            return f"ntos({v!r}) -> {type(e).__name__}: {e}"
+        if back != v and not (v == 0 and back == 0):
+            return f"ntos({v!r}) = {t!r}, which reads back as {back!r}"
+        if k is not None and "e" not in t.lower() and "." in t and len(t.split(".", 1)[1]) > k:
+            return f"{v!r} is a value rounded to {k} decimals but ntos writes it as {t[:40]!r}"
+        return None
+
+    special = [0.0, -0.0, 5e-324, -5e-324, 2.2250738585072014e-308, 1.7976931348623157e308, 1e16, 1e22, 1e21, 123456789012345680.0, 2.5e-10, 1.25e-20, 1.5e+20, 2e-05, 3.5e-05, 1e-06, 1.5e-07, 6.25e-06, 1.23456e-05]
+    for v in special:
+        r = check(v)
+        if r:
+            res.findings.append(Finding(key="numbers.printing:special", text=r, replay=dict(value=repr(v)), confirmed=True))
+            break
+    for i in range(n):
+        c = rnd.random()
+        k = None
+        if c < 0.25:
+            v = struct.unpack("<d", struct.pack("<Q", rnd.getrandbits(64)))[0]
+            if not math.isfinite(v):
+                continue
+        elif c < 0.55:
+            v = float(f"{rnd.uniform(1, 10):.{rnd.randint(0, 16)}f}e{rnd.randint(-25, 25)}") * rnd.choice((1, -1))
+        elif c < 0.9:
+            k = rnd.randint(0, 9)
+            v = round(rnd.choice((rnd.uniform(-1000, 1000), rnd.uniform(-1, 1) * 10 ** -rnd.randint(0, 9), rnd.uniform(-1e6, 1e6))), k)
+        else:
+            v = float(rnd.randint(-10**6, 10**6))
+        r = check(v, k)
+        if r:
+            res.findings.append(Finding(key="numbers.printing:" + ("rounded" if "rounded" in r else "round-trip"), text=r, replay=dict(value=repr(v), decimals=k), confirmed=True))
+            break
+    res.distinct_nontrivial = len(seen)
+    res.samples = [dict(value="2e-05", text=ntos(2e-05)), dict(value="-0.0", text=ntos(-0.0))]
+    return res
